@@ -181,7 +181,12 @@ func genC10(r *sim.Rng, tier string, idx int) *GCase {
 			}
 		}
 		f := FileSpec{Name: name, Mode: sim.Pick(r, []uint32{0o644, 0o600, 0o444, 0o755}), Stream: genCompressedStream(r, format, max)}
-		switch r.Weighted([]int{5, 2, 2, 1}) {
+		switch r.Weighted([]int{5, 2, 2, 1, 1}) {
+		case 4:
+			f.Kind = "stream"
+			if format == "lzma" {
+				f.Kind, f.Seed = "tailed", r.Uint64()
+			}
 		case 0:
 			f.Kind = "stream"
 		case 1:
